@@ -662,6 +662,16 @@ class Interp:
         """truth of a test on ranks / literal integers; None when not decided"""
         if isinstance(t, ast.Constant) and isinstance(t.value, bool):
             return t.value
+        facts = getattr(self.ctx, 'facts', {})
+        if facts:
+            if norm(t) in facts:
+                return facts[norm(t)]
+            # `x is not None` is the negation of the declared fact `x is None` (and the other way round)
+            if isinstance(t, ast.Compare) and len(t.ops) == 1 and isinstance(t.ops[0], (ast.Is, ast.IsNot, ast.Eq, ast.NotEq)):
+                flip = {ast.Is: ast.IsNot, ast.IsNot: ast.Is, ast.Eq: ast.NotEq, ast.NotEq: ast.Eq}[type(t.ops[0])]
+                alt = norm(ast.Compare(left=t.left, ops=[flip()], comparators=t.comparators))
+                if alt in facts:
+                    return not facts[alt]
         if isinstance(t, ast.Compare) and len(t.ops) == 1:
             a, b = self.ev(t.left), self.ev(t.comparators[0])
             if a is not None and b is not None and a[0] == 'int' and b[0] == 'int':
